@@ -48,7 +48,7 @@ else:
             if r.returncode:
                 res = {"_apply": {"exit": None, "line": "patch does not apply to current /repo: " + (r.stdout + r.stderr)[-200:]}}
             else:
-                env = dict(os.environ, VERIF_REPO=tmp)
+                env = dict(os.environ, VERIF_REPO=tmp, VERIF_EVIDENCE_DIR=os.path.join(tmp, "evidence"))
                 for cid in ids:
                     c = subprocess.run([os.path.join(ROOT, "check"), cid, "quick"], cwd=ROOT, env=env, capture_output=True, text=True)
                     lines = [l for l in c.stdout.splitlines() if l.startswith(("VIOLATION", "INFRA", cid))]
